@@ -227,7 +227,7 @@ var shapes = []shape{
 }
 
 var seps = []string{";\n", ";", ";\n\n", ";\n-- note\n", "; /* c */ ", ";\n\n-- a;\n-- b\n"}
-var leads = []string{"", "\n\n", "-- file comment;\n\n", "/* c; */\n", "\u00a0\n\n"}
+var leads = []string{"", "\n\n", "-- file comment;\n\n", "/* c; */\n", "\u00a0\n\n", "\ufeff"}
 var tails = []string{";", ";\n", "", ";\n-- bye\n", ";\n-- bye", "; -- bye"}
 
 type delimMode struct {
@@ -270,6 +270,9 @@ func scripts(set optSet, maxStmts int, full bool, f func(Case)) {
 							if dm.delim == "\n\n" && (strings.Contains(lead, "\n\n") || strings.Contains(sep, "\n\n") || strings.Contains(sep, "--")) {
 								continue
 							}
+							if lead == "\ufeff" && dm.header != "" {
+								continue // a byte order mark is the first thing in a file
+							}
 							var b strings.Builder
 							b.WriteString(dm.header)
 							if dm.header != "" && strings.HasPrefix(dm.header, "--") && !strings.HasSuffix(dm.header, "\n\n") && lead == "" {
@@ -299,6 +302,11 @@ func scripts(set optSet, maxStmts int, full bool, f func(Case)) {
 								}
 								b.WriteString(d)
 								w := text
+								// a byte order mark is no white space: it belongs to the first statement, where its
+								// position is counted (the scanner must not strip it silently).
+								if i == 0 && lead == "\ufeff" && dm.header == "" {
+									w = lead + w
+								}
 								if dm.delim == ";" && strings.HasPrefix(d, ";") {
 									w += ";"
 								}
@@ -410,7 +418,7 @@ func Run(r *report.Run) {
 	if r.Tier == "thorough" {
 		L, maxStmts, full = 5, 3, true
 	}
-	r.Rule = fmt.Sprintf("(a) every string of <=%d tokens over a %d-token alphabet (quotes, parens, comment markers, backslash, dollar tags, E', multi-byte rune, non-ASCII white space (NBSP), BEGIN/ATOMIC/END, DELIMITER, //, GO, the atlas:delimiter header) x the 4 scanner option sets the drivers use (positions, overlap and gap oracle) plus a T-SQL-like set (totality only); (b) every script of <=%d statements from %d statement shapes (per option set) x 5 leads x %d separators x 6 tails (incl. a line comment ended by the end of the input) x 7 delimiter modes (default, header directive //, DELIMITER //, blank-line delimiter, two multi-byte delimiters via DELIMITER, ;;) with the intended split and line numbers known to the generator, scanned with the option set and through the dialect driver's own ScanStmts; non-trivial = input that scans to >=1 statement or an error; inputs are distinct by construction", L, len(alphabet), maxStmts, len(shapes), len(seps))
+	r.Rule = fmt.Sprintf("(a) every string of <=%d tokens over a %d-token alphabet (quotes, parens, comment markers, backslash, dollar tags, E', multi-byte rune, non-ASCII white space (NBSP), BEGIN/ATOMIC/END, DELIMITER, //, GO, the atlas:delimiter header) x the 4 scanner option sets the drivers use (positions, overlap and gap oracle) plus a T-SQL-like set (totality only); (b) every script of <=%d statements from %d statement shapes (per option set) x 6 leads (incl. a UTF-8 byte order mark) x %d separators x 6 tails (incl. a line comment ended by the end of the input) x 7 delimiter modes (default, header directive //, DELIMITER //, blank-line delimiter, two multi-byte delimiters via DELIMITER, ;;) with the intended split and line numbers known to the generator, scanned with the option set and through the dialect driver's own ScanStmts; non-trivial = input that scans to >=1 statement or an error; inputs are distinct by construction", L, len(alphabet), maxStmts, len(shapes), len(seps))
 	r.Assumptions = []string{
 		"an error return is always acceptable for arbitrary token strings (the property allows 'an error or a list'); for generated well-formed scripts an error is a violation",
 		"a gap may contain white space, complete comments of the enabled kinds, the active delimiter and DELIMITER/GO command lines; an unterminated comment in a gap counts as text dropped",
